@@ -818,7 +818,7 @@ def trace(a, offset=0, axis1=0, axis2=1, out=None, out_like=None, sizing='optima
 
     num_of_additions = np.diagonal(np.array(a), offset=offset, axis1=axis1, axis2=axis2).size
     signed = a.signed
-    n_word = int(np.ceil(np.log2(num_of_additions))) + a.n_word
+    n_word = int(np.ceil(np.log2(max(num_of_additions, 1)))) + a.n_word     # (an empty diagonal: the trace is 0, no growth)
     n_frac = a.n_frac
     n_int = n_word - int(signed) - n_frac
     optimal_size = (signed, n_word, n_int, n_frac)
